@@ -19,6 +19,9 @@ COMMON_NOTE = ("Trusted: the harness's dense long-double reference, the choice-s
                "Exploration only: the property is shown to hold on the generated cases (counts in the evidence file), nothing is proved.")
 
 INFO = {
+    "C05": dict(level="exploration", assumptions=COMMON_ASSUME, note=COMMON_NOTE,
+                technique="property-based testing (rapidcheck): residual oracle mapped through the equilibration scalings, bit-exact snapshots of A's index arrays and of B's single documented scaling",
+                text="Generated expert-driver calls over Trans x Equil x IterRefine x storage x ordering x tuning x 4 types; X is checked against op(A)X=B for the caller's original data with the factor-derived bound, and the mutation of A and B is compared with the documented contract."),
     "C01": dict(level="exploration", assumptions=COMMON_ASSUME, note=COMMON_NOTE,
                 technique="property-based testing (rapidcheck) with a componentwise residual oracle derived from the returned factors",
                 text="Generated square systems in both storage orientations, all orderings/thresholds/tunings and 4 arithmetic types are solved by the simple driver; every returned X is checked against the componentwise bound c*n*eps*(|L||U| permuted back)|X| + n*eps*|B| computed in long double."),
@@ -29,7 +32,7 @@ INFO = {
 
 NOT_APPLICABLE = {}
 
-PROPS = ["C01", "C02"]
+PROPS = ["C01", "C02", "C05"]
 
 
 def all_props():
